@@ -8,7 +8,7 @@ Observation: harness `tce` (TaprootCommitmentEnv::Iterate until Done/Failed) and
 configure_tx_txin, hand-over of the leaf hash into script execution)."""
 from hypothesis import strategies as st
 
-from .. import core
+from .. import cli, core
 from ..core import Violation
 from ..harness import Harness, kvline
 from ..ref import script as R, secp, tx as T, verify as V
@@ -197,6 +197,52 @@ def check_phase(c, ctx, want, m):
                 e['acc'], e['d']['tce'], e['d']['pc']), observed=[(x['acc'], x['d']['tce'], x['d']['pc']) for x in log[failed_at:]], expected='every step fails, still in the commitment phase')
 
 
+def check_display(c, ctx):
+    """what an interactive session shows of the commitment check (the taproot log lines on stderr, on by default on a terminal, and the `k:` column):
+    the leaf hash and every intermediate hash must be the BIP341 values (byte order as in BIP341: the digest as produced)"""
+    import re
+    control, program, script = c['control'], c['program'], c['script']
+    m = (len(control) - 33) // 32
+    leaf = V.tapleaf(control[0] & 0xfe, script)
+    ks = [leaf]
+    for i in range(m):
+        node = control[33 + 32 * i: 65 + 32 * i]
+        ks.append(secp.tagged('TapBranch', ks[-1] + node if ks[-1] < node else node + ks[-1]))
+    fund = T.Tx()
+    fund.vin = [dict(txid=bytes(32), n=0, script=b'\x51', seq=0xffffffff, wit=[])]
+    fund.vout = [dict(value=10000, spk=b'\x51\x20' + program)]
+    tx = T.Tx()
+    tx.vin = [dict(txid=fund.txid(), n=0, script=b'', seq=0xffffffff, wit=[b'\x01', script, control])]
+    tx.vout = [dict(value=9000, spk=b'\x51')]
+    rp = cli.Repl(['--tx=' + tx.ser().hex(), '--txin=' + fund.ser().hex()])
+    outs, err, _status = rp.session(['step'] * (m + 1))
+    err = err if isinstance(err, str) else err.decode(errors='replace')
+    ctx.case(b'display' + control + program + script[:40], True, dict(case_json(c), display=True), 'display:m=%d' % m)
+    shown = re.findall(r'^- k\s+= ([0-9a-f]{64})', err, re.M) + re.findall(r'^\s+- \d+: k -> ([0-9a-f]{64})', err, re.M)
+    if not shown:
+        ctx.count('display:no-log-lines')
+        return
+    want = [x.hex() for x in ks[:len(shown)]]
+    if shown != want:
+        bad = next(i for i in range(len(shown)) if shown[i] != want[i])
+        raise Violation(c, 'the commitment log shows %s as %s, the BIP341 value is %s%s' % ('the tap leaf hash' if bad == 0 else 'intermediate hash %d' % bad, shown[bad], want[bad],
+                        ' (the bytes are reversed)' if bytes.fromhex(shown[bad])[::-1].hex() == want[bad] else ''), observed=shown, expected=want)
+    ctx.count('display:hashes-compared', len(shown))
+
+
+@st.composite
+def display_cases(draw):
+    c = draw(triples())
+    return c
+
+
+def w_display(ctx, wid, seed, examples):
+    def ok(c):
+        m = (len(c['control']) - 33) // 32
+        return len(c['control']) == 33 + 32 * m and m <= 6 and (c['control'][0] & 0xfe) == 0xc0 and len(c['program']) == 32 and 0 < len(c['script']) <= 200 and R.has_valid_ops(c['script'], 0xba)
+    core.hyp_campaign(ctx, 'display', triples().filter(ok), check_display, examples, seed, case_json)
+
+
 # ---- size validation and hand-over through a spend session
 @st.composite
 def size_cases(draw):
@@ -268,7 +314,7 @@ def w_sizes(ctx, wid, seed, examples):
 def run(tier, t0):
     W = core.WORKERS
     nt, ns = (900, 120) if tier == 'quick' else (12000, 2500)
-    m = core.parallel(PID, [(w_triples, dict(examples=nt)) for _ in range(W)] + [(w_sizes, dict(examples=ns)) for _ in range(max(2, W // 4))])
+    m = core.parallel(PID, [(w_triples, dict(examples=nt)) for _ in range(W)] + [(w_sizes, dict(examples=ns)) for _ in range(max(2, W // 4))] + [(w_display, dict(examples=12 if tier == 'quick' else 400)) for _ in range(4)])
     return core.finish(PID, tier, m, RULE, t0, min_nontrivial=600 if tier == 'quick' else 30000,
                        assumptions=['independent BIP341 implementation (vf/ref/verify.py, vf/ref/secp.py) validated on the real-chain p2tr / p2ts pairs and BIP340 vector 0',
                                     'TaprootCommitmentEnv is only constructed with control blocks of at least 33 bytes (its only caller guarantees that)'])
@@ -280,6 +326,8 @@ def replay(rec):
     try:
         if 'q' in j:
             check_size(dict(kind=j['kind'], control=bytes.fromhex(j['control']), script=bytes.fromhex(j['script']), q=bytes.fromhex(j['q']), leaf=bytes.fromhex(j['leaf'])), ctx)
+        elif rec.get('campaign') == 'display':
+            check_display(case_from_json(j), ctx)
         else:
             check_triple(case_from_json(j), ctx)
     except Violation as v:
